@@ -390,8 +390,10 @@ Proof.
     assert (E : (a - b) mod M62 = 0).
     { rewrite Zminus_mod, H, Z.sub_diag. reflexivity. }
     apply Z.mod_divide in E; [|unfold M62; lia]. destruct E as [k E].
-    assert (-2 < k < 2) by (unfold M62 in *; nia). assert (k = -1 \/ k = 0 \/ k = 1) as [->|[->|->]] by lia; lia.
-  - intros [->|[->|->]]; [reflexivity| |].
+    assert (Hk : -2 < k < 2) by (unfold M62 in *; nia).
+    assert (Hk3 : k = -1 \/ k = 0 \/ k = 1) by lia.
+    destruct Hk3 as [Hk3|[Hk3|Hk3]]; subst k; lia.
+  - intros [H|[H|H]]; rewrite H; [reflexivity| |].
     + replace (b + M62) with (b + 1 * M62) by ring. apply Z.mod_add. unfold M62; lia.
     + replace (a + M62) with (a + 1 * M62) by ring. symmetry. apply Z.mod_add. unfold M62; lia.
 Qed.
